@@ -158,10 +158,12 @@ Definition spec_date (sec : N) : bytes :=
 Definition spec_expires (key_created : N) (life : Z) : bytes :=
   if (life <=? 0)%Z then bs "never" else spec_date (key_created + Z.to_N life).
 
-(* one alternative (flags created life) against the three attributes *)
-Definition alt_matches (key_created : N) (attrs : list (bytes * bytes)) (alt : arg) : bool :=
+(* one alternative (flags created life) against the three attributes.  [subkey]: the creation date
+   of a subkey is the creation time in its key packet (as `gpg --list-keys` shows it), for an identity
+   it is the creation time of the self-signature (GnuPG's uid record) *)
+Definition alt_matches (subkey : bool) (key_created : N) (attrs : list (bytes * bytes)) (alt : arg) : bool :=
   let flags := N.land (N_of_arg (arg_nth 0 alt)) 47 in
-  let created := N_of_arg (arg_nth 1 alt) in
+  let created := if subkey then key_created else N_of_arg (arg_nth 1 alt) in
   let life := arg_Z (arg_nth 2 alt) in
   match attr_lookup (bs "Usage") attrs, attr_lookup (bs "Created") attrs, attr_lookup (bs "Expires") attrs with
   | Some u, Some c, Some e =>
@@ -170,9 +172,9 @@ Definition alt_matches (key_created : N) (attrs : list (bytes * bytes)) (alt : a
   | _, _, _ => false
   end.
 
-Definition sig_attrs_ok (key_created : N) (attrs : list (bytes * bytes)) (alts : list arg) : bool :=
+Definition sig_attrs_ok (subkey : bool) (key_created : N) (attrs : list (bytes * bytes)) (alts : list arg) : bool :=
   Nat.eqb (count_attr (bs "Usage") attrs) 1 && Nat.eqb (count_attr (bs "Created") attrs) 1 &&
-  Nat.eqb (count_attr (bs "Expires") attrs) 1 && existsb (alt_matches key_created attrs) alts.
+  Nat.eqb (count_attr (bs "Expires") attrs) 1 && existsb (alt_matches subkey key_created attrs) alts.
 
 (* key reference (fpr algo oid bits created ...) against the key attributes *)
 Definition key_attrs_ok (kr : arg) (attrs : list (bytes * bytes)) : option string :=
@@ -224,7 +226,7 @@ Fixpoint check_subkeys (refs : list arg) (kids : list info) : option string :=
       match key_attrs_ok r (i_attrs k) with
       | Some e => Some e
       | None =>
-          if sig_attrs_ok (N_of_arg (arg_nth 4 r)) (i_attrs k) (arg_list (arg_nth 5 r))
+          if sig_attrs_ok true (N_of_arg (arg_nth 4 r)) (i_attrs k) (arg_list (arg_nth 5 r))
           then check_subkeys refs' kids'
           else Some "subkey usage / creation date / expiry do not equal what its binding signature and the subkey encode"%string
       end
@@ -238,7 +240,7 @@ Fixpoint check_identities (key_created : N) (refs : list arg) (kids : list info)
   | r :: refs' =>
       match find_child (arg_bytes (arg_nth 0 r)) kids with
       | [k] =>
-          if sig_attrs_ok key_created (i_attrs k) (arg_list (arg_nth 1 r))
+          if sig_attrs_ok false key_created (i_attrs k) (arg_list (arg_nth 1 r))
           then check_identities key_created refs' kids
           else Some "identity usage / creation date / expiry do not equal what its self-signature and the key encode"%string
       | [] => Some "an identity with a valid self-signature is missing from the description"%string
